@@ -243,3 +243,46 @@ pub fn c13_read_item_iterators_exact_size() {
     cover!(true, "end reached");
     sym::forget((c, s, owned));
 }
+
+// @h memw=5 prop=C13 tier=quick kind=proof inst="ReadSlice / ReadColumns iterators (region-backed, incl. an EMPTY item between neighbours, and owned-borrowed): last(), nth(k), exhausted iterators" bounds="slice items and rows of 2, 0, 2 symbolic bytes; nth(k) for symbolic k <= 3; last() fresh, after one step and after exhaustion" desc="the iterator's other entry points (last, nth, count) stay inside the item: last() of an empty item is None (not the predecessor's element), last() of an exhausted iterator is None, nth(k) is the k-th element or None"
+#[cfg_attr(kani, kani::proof, kani::unwind(7))]
+pub fn c13_read_item_iterator_adaptors() {
+    let a = Bytes::<3>::any_len(2);
+    let e = Bytes::<3>::any_len(0);
+    let c = Bytes::<3>::any_len(2);
+    let k = sym::usize();
+    sym::assume(k <= 3);
+    let mut r = SliceRegion::<MirrorRegion<u8>>::default();
+    let ia = r.push(a.as_slice());
+    let ie = r.push(e.as_slice());
+    let ic = r.push(c.as_slice());
+    assert!(r.index(ie).iter().last().is_none(), "C13: last() of an empty slice item returned an element (a neighbour's)");
+    assert!(r.index(ie).iter().nth(0).is_none(), "C13: nth(0) of an empty slice item returned an element");
+    assert!(r.index(ia).iter().last() == Some(a.buf[1]), "C13: last() of a slice item is not its last element");
+    assert!(r.index(ic).iter().last() == Some(c.buf[1]), "C13: last() of the region's last slice item is not its last element");
+    let mut it = r.index(ia).iter();
+    let _ = it.next();
+    let mut it2 = it.clone();
+    assert!(it.last() == Some(a.buf[1]), "C13: last() after one step is not the item's last element");
+    let _ = it2.next();
+    assert!(it2.last().is_none(), "C13: last() of an exhausted slice iterator returned an element");
+    let got = r.index(ic).iter().nth(k);
+    assert!(got == if k < 2 { Some(c.buf[k]) } else { None }, "C13: nth(k) of a slice item is not its k-th element / None");
+    let got = r.index(ia).iter().nth(k);
+    assert!(got == if k < 2 { Some(a.buf[k]) } else { None }, "C13: nth(k) of a slice item reaches into its neighbour");
+    let mut t = ColumnsRegion::<MirrorRegion<u8>>::default();
+    let ja = t.push(a.as_slice());
+    let je = t.push(e.as_slice());
+    let jc = t.push(c.as_slice());
+    assert!(t.index(je).iter().last().is_none(), "C13: last() of an empty row returned a cell");
+    assert!(t.index(ja).iter().last() == Some(a.buf[1]), "C13: last() of a row is not its last cell");
+    let got = t.index(jc).iter().nth(k);
+    assert!(got == if k < 2 { Some(c.buf[k]) } else { None }, "C13: nth(k) of a row is not its k-th cell / None");
+    let owned: Vec<u8> = a.as_slice().to_vec();
+    let b = <SliceRegion<MirrorRegion<u8>> as Region>::ReadItem::borrow_as(&owned);
+    assert!(b.iter().last() == Some(a.buf[1]), "C13: last() of an owned-borrowed slice item is not its last element");
+    let got = b.iter().nth(k);
+    assert!(got == if k < 2 { Some(a.buf[k]) } else { None }, "C13: nth(k) of an owned-borrowed slice item is wrong");
+    cover!(true, "end reached");
+    sym::forget((r, t, owned));
+}
